@@ -15,8 +15,9 @@ package main
 //   <id>#cow  afero on CopyOnWriteFs       <id>#std  path/filepath on the temp directory
 // Canonical results:  walk: "v=<path hex>:<d|f|n>:<err>,... r=<err>"   err: - SkipDir NotExist E<k> Other
 //                     glob: "m=<path hex>,... r=<-|BadPattern|Other>"   match: true|false|BadPattern
-// Oracle (Go side, independent of the model): afero's line must equal the #std line, for glob only
-// when the pattern is well-formed (own grammar check) and has no backslash.
+// Oracle (Go side, independent of the model): afero's line must equal the #std line — for glob on EVERY
+// pattern (escapes and malformed patterns included: filepath.Glob's matches, order and ErrBadPattern);
+// the own grammar check c16WellFormed only classifies the cases (counters).
 
 import (
 	"errors"
@@ -375,8 +376,9 @@ func c16GlobS(m []string, err error, rel func(string) string) string {
 	return fmt.Sprintf("m=%s r=%s", v, c16ErrClass(err))
 }
 
-// grammar of Match without escapes, one '/'-separated element at a time (own implementation, the
-// gate of the glob oracle):  '*' | '?' | '[' ['^'] range+ ']' | c ;  range = c | c '-' c, c not in "-]"
+// grammar of Match without escapes, one '/'-separated element at a time (own implementation; it was
+// the gate of the glob oracle while afero.Glob ignored escapes and malformed patterns, now it only
+// classifies):  '*' | '?' | '[' ['^'] range+ ']' | c ;  range = c | c '-' c, c not in "-]"
 func c16WellFormed(pat string) bool {
 	if strings.Contains(pat, "\\") {
 		return false
@@ -450,20 +452,22 @@ func (c *Ctx) c16GlobCase(w *c16World, id, pat string) {
 			tag = ""
 		}
 		if got != std {
-			if wf {
-				sig := "glob" + tag + ":matches"
-				if strings.HasSuffix(got, "r=-") != strings.HasSuffix(std, "r=-") {
-					sig = "glob" + tag + ":error"
-				}
-				c.Oracle("FAIL %s %s tree=%s pattern=%q afero%s: %s | filepath: %s", id, sig, w.enc, pat, w.tags[i], got, std)
-			} else if n == 0 {
-				c.Count("glob.not-wellformed.afero-differs-from-std(no oracle)")
+			sig := "glob" + tag + ":matches"
+			if strings.HasSuffix(got, "r=-") != strings.HasSuffix(std, "r=-") {
+				sig = "glob" + tag + ":error"
 			}
+			c.Oracle("FAIL %s %s tree=%s pattern=%q afero%s: %s | filepath: %s", id, sig, w.enc, pat, w.tags[i], got, std)
 		}
 	}
 	switch {
+	case strings.Contains(pat, "\\") && strings.HasSuffix(std, "r=-"):
+		c.Count("glob.pattern=with-escape(accepted)")
+	case strings.Contains(pat, "\\"):
+		c.Count("glob.pattern=with-escape(ErrBadPattern)")
+	case !wf && strings.HasSuffix(std, "r=-"):
+		c.Count("glob.pattern=not-wellformed(no error on this tree)")
 	case !wf:
-		c.Count("glob.pattern=not-wellformed")
+		c.Count("glob.pattern=not-wellformed(ErrBadPattern)")
 	case strings.HasPrefix(pat, "/"):
 		c.Count("glob.pattern=absolute")
 	default:
@@ -630,12 +634,25 @@ func c16RandTable(r *Rng, n int) string {
 var c16Segs = []string{"*", "?", "a*", "*b", "a?", "??", "[ab]", "[a-c]", "[^a]", "[a-c]*", "*.*", "?*", "a[.0_]b",
 	"[^a-b]*", "*[b_]", "a*b", "*a*", "[A-Z]", "[_a]?", "a", "b", "ab", "a.b", "a-b", "zz", "[a]", "*[0-9]", "]", "a]", "*]", "-", "^", "[]a]"}
 
+// elements with the escape character (well-formed: every backslash is followed by a character)
+var c16EscSegs = []string{"\\a", "\\b", "a\\b", "a\\.b", "a\\-b", "\\a\\b", "\\*", "\\?", "\\[", "a\\*", "\\a*", "*\\b", "?\\b", "\\a?", "[\\]]", "[\\-a]",
+	"[a\\-c]", "[\\a-\\c]", "[^\\a]", "[\\^a]", "a[\\.0]b", "\\_", "\\B", "*\\.*", "\\\\", "a\\0", "\\]", "[a-\\c]*", "\\z\\z"}
+
 var c16Malformed = []string{"[", "a[", "[]", "[a-]", "[-a]", "[^]", "[a", "[^", "[a-", "*[", "a*[", "?[", "[a-]b]", "[--]", "a\\", "\\a", "\\*", "[\\]]", "a\\b", "[a/b]", "[]]", "[!a]"}
 
 // a pattern element that matches the given name (and usually some of its siblings)
 func c16Generalise(r *Rng, name string) string {
 	k := r.Intn(len(name))
-	switch r.Intn(9) {
+	switch r.Intn(12) {
+	case 9: // the name itself with one character escaped
+		return name[:k] + "\\" + name[k:]
+	case 10: // an escaped character next to a star
+		if k == 0 {
+			return "\\" + name[:1] + "*"
+		}
+		return name[:k-1] + "\\" + name[k-1:k] + "*"
+	case 11: // an escaped character inside a class
+		return name[:k] + "[\\" + name[k:k+1] + "]" + name[k+1:]
 	case 0:
 		return name
 	case 1:
@@ -691,6 +708,8 @@ func c16GenPattern(w *c16World, r *Rng) string {
 	for i := range segs {
 		if i < len(target) && target[i] != "" && r.Chance(3, 4) {
 			segs[i] = c16Generalise(r, target[i])
+		} else if r.Chance(1, 5) {
+			segs[i] = Pick(r, c16EscSegs)
 		} else {
 			segs[i] = Pick(r, c16Segs)
 		}
@@ -703,7 +722,7 @@ func c16GenPattern(w *c16World, r *Rng) string {
 	case 4:
 		p = "./" + p
 	case 5:
-		if !strings.ContainsAny(segs[len(segs)-1], "*?[") {
+		if !strings.ContainsAny(segs[len(segs)-1], "*?[\\") {
 			p = p + "/*"
 		} else {
 			p = p + "/"
@@ -798,12 +817,12 @@ func runC16(c *Ctx) {
 	}
 	c.Extra["walk_exhaustive_small_scope"] = fmt.Sprintf("%d trees of depth<=2 over {a,b} x every root x tables with <=2 actions: %d cases", len(small), nw)
 
-	// (2) small scope for glob: every pattern of length <= 3 (4 thorough) over "ab*?[]-^/" on three trees
+	// (2) small scope for glob: every pattern of length <= 3 (4 thorough) over "ab*?[]-^/\\" on three trees
 	gl := 3
 	if thorough {
 		gl = 4
 	}
-	pats := c16Strings("ab*?[]-^/", gl)[1:]
+	pats := c16Strings("ab*?[]-^/\\", gl)[1:]
 	fixed := []string{
 		"D[62=D[61=F,62=F],61=F,6162=D[61=D[62=F]],2d=F]",
 		"D[61=D[61=D[61=F,62=F],62=F],62=D[],5d=F,5e=F]",
@@ -813,9 +832,9 @@ func runC16(c *Ctx) {
 	for ti, enc := range fixed {
 		w := c16NewWorld(c16ParseTree(enc))
 		for pi, p := range pats {
-			// a pattern without meta characters is handed to lstat as it is: MemMapFs cleans "f/" into
-			// "f" lexically where the kernel answers ENOTDIR for a file f — not Glob's business
-			if !strings.ContainsAny(p, "*?[") && (filepath.Clean(p) != p || filepath.Clean("/"+p) != "/"+p) {
+			// a pattern without meta characters (the backslash is one) is handed to lstat as it is: MemMapFs
+			// cleans "f/" into "f" lexically where the kernel answers ENOTDIR for a file f — not Glob's business
+			if !strings.ContainsAny(p, "*?[\\") && (filepath.Clean(p) != p || filepath.Clean("/"+p) != "/"+p) {
 				continue
 			}
 			c.c16GlobCase(w, fmt.Sprintf("xg%d_%d", ti, pi), p)
@@ -829,7 +848,7 @@ func runC16(c *Ctx) {
 		}
 		w.Close()
 	}
-	c.Extra["glob_exhaustive_small_scope"] = fmt.Sprintf("every pattern of length<=%d over \"ab*?[]-^/\" on 3 fixed trees: %d cases (+ malformed list alone, below */ and above /*)", gl, ng)
+	c.Extra["glob_exhaustive_small_scope"] = fmt.Sprintf("every pattern of length<=%d over \"ab*?[]-^/\\\\\" on 3 fixed trees: %d cases (+ malformed list alone, below */ and above /*)", gl, ng)
 
 	// (3) filepath.Match itself: patterns <= 3 (4) over "ab*?[]-^\" x names <= 2 (3) over "ab-]", plus random longer ones
 	mp, mn := 3, 2
@@ -889,11 +908,15 @@ func runC16(c *Ctx) {
 		}
 		for j := 0; j < 4; j++ { // separate malformed / escaped stream
 			p := Pick(r, c16Malformed)
+			seg := Pick(r, c16Segs)
+			if r.Chance(1, 3) {
+				seg = Pick(r, c16EscSegs)
+			}
 			switch r.Intn(3) {
 			case 0:
-				p = Pick(r, c16Segs) + "/" + p
+				p = seg + "/" + p
 			case 1:
-				p = p + "/" + Pick(r, c16Segs)
+				p = p + "/" + seg
 			}
 			c.c16GlobCase(w, fmt.Sprintf("gm%d_%d", ti, j), p)
 		}
